@@ -305,6 +305,63 @@ def isolated_exec(mod, case, timeout=180):
     return res[1]
 
 
+def fork_map(func, jobs, nproc=None, timeout=600):
+    """[func(job) for job in jobs], every job in its OWN freshly forked
+    process (so that global state one job leaves behind cannot reach the
+    next), at most nproc at a time, results in job order."""
+    import multiprocessing
+    import multiprocessing.connection as mpc
+    ctx = multiprocessing.get_context('fork')
+    nproc = nproc or NPROC
+    pending = list(enumerate(jobs))
+    pending.reverse()
+    running = {}
+    results = {}
+    deadline = time.time() + timeout
+
+    def child(conn, job):
+        try:
+            try:
+                conn.send(('ok', func(job)))
+            except BaseException:
+                conn.send(('error', traceback.format_exc()))
+            conn.close()
+        finally:
+            os._exit(0)
+    try:
+        while pending or running:
+            while pending and len(running) < nproc:
+                i, job = pending.pop()
+                rd, wr = ctx.Pipe(duplex=False)
+                p = ctx.Process(target=child, args=(wr, job))
+                p.daemon = True
+                p.start()
+                wr.close()
+                running[rd] = (i, p)
+            for rd in mpc.wait(list(running), timeout=5):
+                i, p = running.pop(rd)
+                try:
+                    res = rd.recv()
+                except (EOFError, OSError):
+                    raise HarnessError('fork_map: job %d died' % i)
+                finally:
+                    rd.close()
+                p.join(10)
+                if res[0] != 'ok':
+                    raise HarnessError('fork_map: job %d failed:\n%s'
+                                       % (i, res[1]))
+                results[i] = res[1]
+            if time.time() > deadline:
+                raise HarnessError('fork_map: timeout')
+    finally:
+        for rd, (i, p) in running.items():
+            try:
+                p.kill()
+            except Exception:
+                pass
+    return [results[i] for i in range(len(jobs))]
+
+
 def exec_case(mod, case, stats):
     """Execute a case; a `prelude` (earlier cases of the same process) is
     executed first so that state left behind by them is in place."""
